@@ -448,6 +448,19 @@ Definition snap_columns_to_nearest_layers (g : geo) (names : list str) : res geo
   do g1 <- snap_nearest_loop g cols;
   setup_names g1.
 
+(** ** fit_surface(data, columns, layer_snap): the fitted elevations (least squares, floating point) are given *)
+(** [for col, elev in zip(columns, col_elevations): col.surface = elev; self.set_column_num_layers(col)] *)
+Fixpoint set_surfaces (g : geo) (cols : list id) (zs : list Q) : res geo :=
+  match cols, zs with
+  | c :: r, z :: zr => do g1 <- set_column_num_layers (set_csurf g (fset (csurf g) c (Some z))) c; set_surfaces g1 r zr
+  | _, _ => Ok g
+  end.
+Definition fit_surface (g : geo) (names : list str) (zs : list Q) (snap : Q) : res geo :=
+  do cols <- (match names with [] => Ok (clist g) | _ => lookup_cols g names end);
+  do g1 <- set_surfaces g cols zs;
+  do g2 <- snap_columns_to_layers g1 snap names;
+  setup_names g2.
+
 (** ** translate(shift); rotate(angle): the new positions (irrational) are given *)
 Definition translate (g : geo) (dx dy dz : Q) : geo :=
   let sh (p : pt) : pt := pred2 (fst p + dx, snd p + dy)%Q in
